@@ -9,6 +9,7 @@ import (
 	"sort"
 	"strings"
 	"sync"
+	"time"
 
 	"github.com/getkin/kin-openapi/zzsimrt"
 
@@ -237,7 +238,28 @@ func (Sim) Run(raw json.RawMessage, prop string, keep bool) (res simfw.Result) {
 			zzsimrt.Exit(g)
 		}(g)
 	}
+	// progress watchdog: a caller that blocks for real while it holds the turn (a primitive the scheduler does
+	// not model: sync.Cond, a channel, a lock inside a dependency) stops everybody. That is nothing the
+	// property speaks about, and nothing this simulator can decide: say so quickly instead of burning the budget.
+	stopWatch := make(chan struct{})
+	go func() {
+		last, stuck := zzsimrt.StepNow(), 0
+		for {
+			select {
+			case <-stopWatch:
+				return
+			case <-time.After(500 * time.Millisecond):
+			}
+			if now := zzsimrt.StepNow(); now != last {
+				last, stuck = now, 0
+			} else if stuck++; stuck >= 40 {
+				fmt.Fprintf(os.Stderr, "ZZSIM-HANG: no scheduling point passed for 20 s: the caller holding the turn is blocked in something the scheduler does not model (sync.Cond, channel, WaitGroup, a lock taken other than by x.Lock()/x.RLock(), ...); this run cannot be decided\n")
+				os.Exit(68)
+			}
+		}
+	}()
 	wg.Wait()
+	close(stopWatch)
 	st := zzsimrt.End()
 	zzsimrt.ResetMapOrder(0)
 	res.Steps = int(st.Steps)
@@ -345,6 +367,7 @@ func (Sim) Run(raw json.RawMessage, prop string, keep bool) (res simfw.Result) {
 		sh     *Shared
 	}
 	bases := map[string]*baseW{}
+	nextTry := 0
 	for g := range s.Callers {
 		for k, op := range s.Callers[g] {
 			b := bases[op.Regex]
@@ -359,6 +382,28 @@ func (Sim) Run(raw json.RawMessage, prop string, keep bool) (res simfw.Result) {
 				bases[op.Regex] = b
 			}
 			alone := op.Remark(s.Marker, b.marker).Exec(b.sh, b.marker)
+			if alone != outcomes[g][k] && s.MapSeed != 0 {
+				// The concurrent phase ran under a permuted map order, the baseline under the sorted one. Which of
+				// several failing members a validation meets first may legitimately follow map order (and with it
+				// whether a crashing callback is reached at all): "the verdict when run alone" is then a set. The
+				// call is run alone again under other orders, each time on a fresh, cold document; only an outcome
+				// that none of them produces is a difference.
+				for t := 0; t < 32 && alone != outcomes[g][k]; t++ {
+					tm := fmt.Sprintf("%st%d", s.Marker, nextTry)
+					nextTry++
+					tw, err := LoadWorld(tm, s.ColdPatterns, s.PlainDoc)
+					if err != nil {
+						break
+					}
+					zzsimrt.ResetMapOrder(s.MapSeed + uint64(t))
+					alt := op.Remark(s.Marker, tm).Exec(NewShared(tw), tm)
+					zzsimrt.ResetMapOrder(0)
+					if alt == outcomes[g][k] {
+						alone = alt
+						res.Probe("outcome-follows-map-order")
+					}
+				}
+			}
 			if alone != outcomes[g][k] {
 				res.Violate(Prop, "same-as-alone", fmt.Sprintf("%s/outcome-differs:%s", Prop, sigOp(g, k)),
 					fmt.Sprintf("caller %d op %d (%s) returned %q among %d concurrent callers but %q when run alone (policy %s, %d switches)", g, k, op.Kind, outcomes[g][k], ng, alone, s.Policy.Kind, len(st.Trace)))
